@@ -31,7 +31,8 @@ COVERED = {
                    "futures.FIRST_COMPLETED": "const", "futures.Executor": "type", "futures.Future": "type"},
     "zmq": {"Context": "fake", "Socket": "fake", "Poller": "fake", "PUSH": "const", "PULL": "const", "REQ": "const", "REP": "const", "POLLIN": "const", "LINGER": "const",
             "REQ_RELAXED": "fake REQ sockets never enforce the send/recv alternation; without REQ_CORRELATE a late reply is handed to the next request, as in ZeroMQ",
-            "REQ_CORRELATE": "const (request ids are not modelled: treated as absent)", "RCVTIMEO": "const", "SNDTIMEO": "const"},
+            "REQ_CORRELATE": "const (request ids are not modelled: treated as absent)", "RCVTIMEO": "const", "SNDTIMEO": "const",
+            "CONFLATE": "fake: a bound socket with the option set keeps only the newest undelivered message"},
     "atexit": {"register": "per-process exit handlers"},
     "builtins": {"open:shm/disk.py": "in-memory fs (module attribute cascade.shm.disk.open)", "open:gateway/router.py": "in-memory fs (module attribute cascade.gateway.router.open)"},
 }
